@@ -12,7 +12,7 @@ try:
         print("pattern not found"); sys.exit(3)
     open(p, "w", encoding="utf-8").write(s.replace(old, new, 1))
     for prop in props.split(","):
-        r = subprocess.run(["/verif/check", prop, "--root", tmp, "--no-write"], capture_output=True, text=True)
+        r = subprocess.run(["/verif/check", prop, "--root", tmp, "--no-write", "--no-controls"], capture_output=True, text=True)
         lines = [l for l in r.stdout.splitlines() if not l.startswith("  rule")]
         print(f"== {prop} exit={r.returncode}")
         for l in lines[:12]:
